@@ -55,6 +55,10 @@ def state_for(context, v):
             chart.insert(0, ("STEPSTYPE", "dance-single")) if not any(k == "STEPSTYPE" for k, _ in chart) else None
     elif context == "version":
         items = [("VERSION", v), ("TITLE", "t")]
+    elif context == "version_desc":
+        # the version together with a chart that has a DESCRIPTION and no CHARTNAME
+        items = [("VERSION", v), ("TITLE", "t")]
+        chart = [("STEPSTYPE", "dance-single"), ("DESCRIPTION", "d"), ("METER", "1"), ("NOTES", "0000")]
     elif context == "notes":
         chart[-1] = ("NOTES", v)
     elif context == "notes2":
@@ -267,6 +271,22 @@ def explore_shard(acc, shard):
                 acc.violation(f["clause"], case, str(f["expected"])[:300], str(f["observed"])[:300], signature=("scale", f["clause"]))
         if case:
             acc.sample(layer, case)
+    elif kind == "V":
+        layer = "V vocabulary (values that mean something elsewhere) in every context"
+        for ctx in CONTEXTS + ["version_desc"]:
+            for tok in (X.KEY_VOCABULARY + X.VOCABULARY if ctx == "chart_key" else X.VOCABULARY):
+                case = {"kind": "value", "context": ctx, "value": tok}
+                core.guard_cheap(acc, case)
+                m = state_for(ctx, tok)
+                acc.count("states")
+                acc.count("transitions")
+                if m is None:
+                    acc.count("out_of_domain")
+                    continue
+                fails, status = check_model(m)
+                tally(acc, case, fails, status, True)
+        acc.outcome("vocabulary value")
+        acc.sample(layer, {"kind": "value", "context": "version_desc", "value": ".5"})
     elif kind == "W":
         _, init_name = shard
         model, mk = initial_states()[init_name]
@@ -310,6 +330,7 @@ def explore(run):
             shards.append(("W", name))  # one long history per small initial state
     for part in range(8):
         shards.append(("S", part, 8, run.thorough()))
+    shards.append(("V",))
     k = run.seed % len(shards)
     shards = shards[k:] + shards[:k]
     run.merge(core.pmap(explore_shard, shards, run.seed))
@@ -329,11 +350,13 @@ def explore(run):
         "Non-trivial = metacharacter value / any chart-alphabet case / state with a chart or None."
         + " W: from every small initial state one uninterrupted history on one live object in which every ordered pair of operations (incl. serialize) occurs consecutively (order-2 de Bruijn sequence, about 2000 steps), compared with the model after every step, round trip every 16 steps."
         + " S: scale simfiles - one-line lists of 7..700 entries, each of : // \\ ; at every offset in a window before 4096 and 8192 (thorough 16384, 65536) in the first property, the note data and a description, 17 / 130 / 1100 charts, 400 properties."
+        + f" V: the vocabulary of C01 ({len(X.VOCABULARY)} values, {len(X.KEY_VOCABULARY)} key look-alikes) in every SSC context, also as VERSION (alone, and with a chart that has a DESCRIPTION but no CHARTNAME)."
     )
     run.assumptions = [
         "msdparser is the trusted tokenizer/escaper; escaping gaps are excluded operationally and counted",
         "a chart is in the domain when exactly one of NOTES/NOTES2 is present; other states are explored but not judged",
     ]
+    core.require(acc.outcomes["vocabulary value"] > 0, "no vocabulary")
     core.require(acc.outcomes["scale simfile"] > 0, "no scale simfile")
     core.require(acc.outcomes["long walk on one live object"] > 0, "no long walk")
     core.require(acc.c["roundtrips_checked"] > 1000, "too few round trips")
